@@ -67,7 +67,12 @@ def subst(fn, i, var_id, R, cur):
     return out
 
 
-def values_at(fn, var_id, use_node, max_paths=64):
+def cases_at(fn, var_id, use_node, max_paths=64):
+    """-> list of (polynomial, {condition rendering: truth}) — one per consistent path"""
+    return values_at(fn, var_id, use_node, max_paths, want_cases=True)
+
+
+def values_at(fn, var_id, use_node, max_paths=64, want_cases=False):
     """-> list of polynomials (distinct) the local may hold when `use_node` is evaluated"""
     g = fn.events()
     R = Renderer(fn)
@@ -81,17 +86,34 @@ def values_at(fn, var_id, use_node, max_paths=64):
     if decl_v is None or use_v is None:
         raise Undecided('declaration or use not in the CFG')
     results = []
+    cases = []
     npaths = [0]
+
+    # vertices that modify the local; a modification on a cycle cannot be summarised
+    mod_v = set()
+    for vid in list(g.verts.keys()):
+        nid = g.node_of(vid)
+        if nid is None:
+            continue
+        n = fn.nodes[nid]
+        if n['k'] == 'DeclStmt':
+            continue
+        if _assign_effect(fn, n, var_id, R, {('#probe',): 1}) != {('#probe',): 1}:
+            mod_v.add(vid)
+    for mv in mod_v:
+        if mv in g.reach([mv]):
+            raise Undecided('the local is modified inside a loop')
 
     def walk(v, cur, val, seen):
         if npaths[0] > max_paths:
             raise Undecided('too many paths')
         while True:
             if v in seen:
-                raise Undecided('use is reached through a loop that may modify the local')
+                return   # a loop that does not modify the local: one traversal is enough
             seen = seen | {v}
             if v == use_v:
                 npaths[0] += 1
+                cases.append((cur, dict(val)))
                 if cur is None:
                     results.append(None)
                 elif not any(P.equal(cur, r) for r in results if r is not None):
@@ -152,6 +174,8 @@ def values_at(fn, var_id, use_node, max_paths=64):
     g2.succ, g2.branch, g2.blocks, g2.node_of, g2.vertex_of = pruned, pruned_branch, g.blocks, g.node_of, g.vertex_of
     g = g2
     walk(decl_v, None, {}, frozenset())
+    if want_cases:
+        return cases
     return results
 
 
